@@ -792,9 +792,9 @@ class SqlalchemyRender:
             sql_query = str(ast_query)
             if self.dialect.name == 'postgresql':
                 # back-quotes are not postgres syntax; inside of a string constant they are data and stay.
-                # A back-quoted name is taken as a whole: an apostrophe inside it does not start a string constant
+                # A quoted name is taken as a whole: an apostrophe inside it does not start a string constant
                 sql_query = re.sub(
-                    r"'(?:[^'\\]|\\.|'')*'|`[^`]*`|`",
+                    r"'(?:[^'\\]|\\.|'')*'|\"[^\"]*\"|`[^`]*`|`",
                     lambda m: m.group(0).replace('`', '') if m.group(0).startswith('`') else m.group(0),
                     sql_query
                 )
